@@ -199,8 +199,8 @@ fn arg(u: &mut U, big: usize) -> RArg {
     let vari = u.chance(90);
     let trai = u.chance(38);
     let numeric = !matches!(kind, RKind::Bool | RKind::Str | RKind::Raw);
-    let name = if vari { Some(text(u, 200)) } else { None };
-    let unit = if vari && numeric { Some(text(u, 200)) } else { None };
+    let name = if vari { Some(text(u, 700)) } else { None };
+    let unit = if vari && numeric { Some(text(u, 700)) } else { None };
     let fixp = match kind {
         RKind::SintFx(32) | RKind::UintFx(32) => Some((f32_bits(u), sint_value(u, 64) as i32 as i64)),
         RKind::SintFx(_) | RKind::UintFx(_) => Some((f32_bits(u), sint_value(u, 64) as i64)),
